@@ -1,24 +1,35 @@
 package app_test
 
-// Engine `mint` (property C18): real x/mint keeper through the app.  Each history
-// draws a parameter set, then feeds consecutive epoch numbers to AfterEpochEnd
-// (inside a cache context, as the epoch hook wrapper does) and observes every
-// account the property names.
+// Engine `mint` (property C18): real x/mint keeper through the app, INCLUDING what the mint hook triggers in
+// x/pool-incentives.  Each history draws a parameter set (with zero-proportion and tiny-provision classes) and a
+// world (gauges created through real pools / the incentives keeper, a distribution table built by real
+// Update/ReplacePoolIncentives proposals run through the gov handler), then feeds consecutive epoch numbers to the
+// mint epoch hook THE WAY x/epochs DOES (MultiEpochHooks -> panicCatchingEpochHook -> ApplyFuncIfNoError: a
+// panicking hook is "nothing happened"), interleaved with further proposals (add, re-weight, remove with weight 0,
+// remove all, duplicate / unsorted / unknown / non-perpetual gauges, gauge id 0 = community pool), and observes
+// every account the property names plus every gauge.
 
 import (
 	"fmt"
 	"math/big"
 	"math/rand"
+	"sort"
 	"strings"
 	"testing"
+	"time"
 
 	sdk "github.com/cosmos/cosmos-sdk/types"
 	authtypes "github.com/cosmos/cosmos-sdk/x/auth/types"
 	distrtypes "github.com/cosmos/cosmos-sdk/x/distribution/types"
 
 	"github.com/osmosis-labs/osmosis/osmomath"
+	appparams "github.com/osmosis-labs/osmosis/v31/app/params"
+	incentivestypes "github.com/osmosis-labs/osmosis/v31/x/incentives/types"
+	lockuptypes "github.com/osmosis-labs/osmosis/v31/x/lockup/types"
 	minttypes "github.com/osmosis-labs/osmosis/v31/x/mint/types"
+	poolincentives "github.com/osmosis-labs/osmosis/v31/x/pool-incentives"
 	poolincentivestypes "github.com/osmosis-labs/osmosis/v31/x/pool-incentives/types"
+	epochstypes "github.com/osmosis-labs/osmosis/x/epochs/types"
 )
 
 func decRaw(v *big.Int) osmomath.Dec { return osmomath.NewDecFromBigIntWithPrec(v, 18) }
@@ -60,20 +71,88 @@ func randProportions(r *rand.Rand, k int, positive bool) []*big.Int {
 	return out
 }
 
+// mintRecHook wraps the mint module's epoch hook and records how it ended; the panic (if any) is re-raised so that
+// the real wrapper (panicCatchingEpochHook -> osmoutils.ApplyFuncIfNoError) deals with it exactly as on chain.
+type mintRecHook struct {
+	inner    epochstypes.EpochHooks
+	err      error
+	panicked bool
+	pv       any
+}
+
+func (h *mintRecHook) GetModuleName() string { return h.inner.GetModuleName() }
+func (h *mintRecHook) BeforeEpochStart(ctx sdk.Context, id string, n int64) error {
+	return h.inner.BeforeEpochStart(ctx, id, n)
+}
+func (h *mintRecHook) AfterEpochEnd(ctx sdk.Context, id string, n int64) (err error) {
+	defer func() {
+		if r := recover(); r != nil {
+			h.panicked, h.pv = true, r
+			panic(r)
+		}
+	}()
+	err = h.inner.AfterEpochEnd(ctx, id, n)
+	h.err = err
+	return err
+}
+
+type drec struct {
+	g uint64
+	w *big.Int
+}
+
+func drecsStr(rs []drec) string {
+	var xs []string
+	for _, r := range rs {
+		xs = append(xs, fmt.Sprintf("%d:%s", r.g, r.w))
+	}
+	return strings.Join(xs, " ")
+}
+
+
+// refWeightRatio: the 18-decimal weight ratio as the code computes it (LegacyDec.Quo: the quotient of w*10^36 by W
+// truncated, then rounded half-even at 10^18), recomputed with plain big.Int arithmetic.
+func refWeightRatio(w, total *big.Int) *big.Int {
+	q := new(big.Int).Quo(new(big.Int).Mul(w, e36), total) // operands are non-negative
+	return ratHalfEven(new(big.Rat).SetFrac(q, e18))
+}
+
 func runMint(t *testing.T, seed int64, n int, dir string) {
 	r := rand.New(rand.NewSource(seed))
 	o := NewOut(dir)
 	h := newH(t)
 	epochsDone := 0
+	propName := []string{"staking", "pool-incentives", "developer", "community"}
 	for epochsDone < n {
 		h.Reset()
 		ctx := h.Ctx
 		mk := h.App.MintKeeper
 		bk := h.App.BankKeeper
 		ak := h.App.AccountKeeper
+		pik := h.App.PoolIncentivesKeeper
+		ik := h.App.IncentivesKeeper
 		params := mk.GetParams(ctx)
 		denom := params.MintDenom
 		props := randProportions(r, 4, false)
+		// zero-proportion classes: each of the four proportions is forced to 0 in a share of the histories
+		if x := r.Intn(10); x < 4 {
+			i := r.Intn(4)
+			j := (i + 1 + r.Intn(3)) % 4
+			props[j] = new(big.Int).Add(props[j], props[i])
+			props[i] = big.NewInt(0)
+			if x == 0 { // two zero proportions
+				k := (j + 1 + r.Intn(3)) % 4
+				if k != j {
+					props[j] = new(big.Int).Add(props[j], props[k])
+					props[k] = big.NewInt(0)
+				}
+			}
+		}
+		for i, p := range props {
+			if p.Sign() == 0 {
+				o.Count("class.zero-proportion." + propName[i])
+			}
+		}
 		params.DistributionProportions = minttypes.DistributionProportions{
 			Staking: decRaw(props[0]), PoolIncentives: decRaw(props[1]), DeveloperRewards: decRaw(props[2]), CommunityPool: decRaw(props[3]),
 		}
@@ -162,6 +241,24 @@ func runMint(t *testing.T, seed int64, n int, dir string) {
 			if r.Intn(5) != 0 { // let the developer vesting account afford its share (else: insufficient-balance path)
 				h.FundModuleAcc(minttypes.DeveloperVestingModuleAcctName, sdk.NewCoins(sdk.NewCoin(denom, osmomath.NewIntFromBigInt(pow2(251)))))
 			}
+		} else if x < 28 {
+			// tiny provisions: nothing to mint, exactly one coin, a few coins (every share truncates to 0 or 1)
+			switch r.Intn(7) {
+			case 0:
+				prov, pclass = big.NewInt(0), "tiny:0"
+			case 1:
+				prov, pclass = big.NewInt(int64(1+r.Intn(1000))), "tiny:<1"
+			case 2:
+				prov, pclass = new(big.Int).Sub(e18, big.NewInt(1)), "tiny:1-ulp"
+			case 3:
+				prov, pclass = new(big.Int).Set(e18), "tiny:1"
+			case 4:
+				prov, pclass = new(big.Int).Add(e18, big.NewInt(int64(r.Intn(3)))), "tiny:1+ulps"
+			case 5:
+				prov, pclass = new(big.Int).Mul(big.NewInt(int64(2+r.Intn(3))), e18), "tiny:2..4"
+			default:
+				prov, pclass = new(big.Int).Rand(r, new(big.Int).Mul(big.NewInt(20), e18)), "tiny:<20"
+			}
 		}
 		o.Count("class.provisions." + pclass)
 		mk.SetMinter(ctx, minttypes.NewMinter(decRaw(prov)))
@@ -181,7 +278,347 @@ func runMint(t *testing.T, seed int64, n int, dir string) {
 		feeColl := ak.GetModuleAddress(authtypes.FeeCollectorName)
 		poolInc := ak.GetModuleAddress(poolincentivestypes.ModuleName)
 		distrAcc := ak.GetModuleAddress(distrtypes.ModuleName)
+		incAcc := ak.GetModuleAddress(incentivestypes.ModuleName)
 		bal := func(c sdk.Context, a sdk.AccAddress) *big.Int { return bk.GetBalance(c, a, denom).Amount.BigInt() }
+
+		// ---------------------------------------------------------------- world: gauges + distribution table
+		// the minted denom is made distributable (on mainnet it is the base denom; here a protorev route stands in)
+		if denom != appparams.BaseCoinUnit {
+			h.App.ProtoRevKeeper.SetPoolForDenomPair(ctx, appparams.BaseCoinUnit, denom, 9999)
+		}
+		wclass := []string{"no-gauges", "pool-gauges", "pool-gauges", "keeper-gauges", "pools+keeper-gauges"}[r.Intn(5)]
+		o.Count("class.world." + wclass)
+		creator := sdk.AccAddress([]byte("c18_gauge_creator___"))
+		mkGauge := func(perp bool) {
+			c := sdk.NewCoins(sdk.NewCoin(appparams.BaseCoinUnit, osmomath.NewInt(1000)))
+			h.FundAcc(creator, c.Add(sdk.NewCoin("lpa", osmomath.NewInt(1)))) // the lock denom must have supply
+			ne := uint64(1)
+			if !perp {
+				ne = uint64(2 + r.Intn(5))
+			}
+			durs := ik.GetLockableDurations(ctx)
+			_, err := ik.CreateGauge(ctx, perp, creator, c, lockuptypes.QueryCondition{LockQueryType: lockuptypes.ByDuration, Denom: "lpa", Duration: durs[r.Intn(len(durs))]}, ctx.BlockTime(), ne, 0)
+			if err != nil {
+				t.Fatalf("CreateGauge: %v", err)
+			}
+		}
+		if wclass == "pool-gauges" || wclass == "pools+keeper-gauges" {
+			h.PrepareBalancerPool() // one perpetual gauge per lockable duration through the pool-incentives hook
+			if r.Intn(3) == 0 {
+				h.PrepareBalancerPool()
+			}
+		}
+		if wclass == "keeper-gauges" || wclass == "pools+keeper-gauges" {
+			for k, kn := 0, 1+r.Intn(4); k < kn; k++ {
+				mkGauge(r.Intn(3) != 0)
+			}
+		}
+		ctx = h.Ctx
+		var perpIDs, nonPerpIDs []uint64
+		var gaugeToks []string
+		maxGauge := uint64(0)
+		for _, g := range ik.GetGauges(ctx) {
+			if g.IsPerpetual {
+				perpIDs = append(perpIDs, g.Id)
+				gaugeToks = append(gaugeToks, fmt.Sprintf("%d:1", g.Id))
+			} else {
+				nonPerpIDs = append(nonPerpIDs, g.Id)
+				gaugeToks = append(gaugeToks, fmt.Sprintf("%d:0", g.Id))
+			}
+			if g.Id > maxGauge {
+				maxGauge = g.Id
+			}
+		}
+		isPerp := map[uint64]bool{}
+		for _, g := range perpIDs {
+			isPerp[g] = true
+		}
+		o.Emit("mint gauges "+strings.Join(gaugeToks, " "), "ok", false)
+		stored := func() (total *big.Int, recs []drec) {
+			di := pik.GetDistrInfo(ctx)
+			for _, rc := range di.Records {
+				recs = append(recs, drec{rc.GaugeId, rc.Weight.BigInt()})
+			}
+			return di.TotalWeight.BigInt(), recs
+		}
+		t0, recs0 := stored()
+		o.Emit(strings.TrimSpace(fmt.Sprintf("mint distrinit %s %s %s", bal(ctx, poolInc), t0, drecsStr(recs0))), "ok", false)
+		// the oracle's own table: what the accepted proposals mean (gauge id -> positive weight)
+		table := map[uint64]*big.Int{}
+		for _, rc := range recs0 {
+			if rc.w.Sign() > 0 {
+				table[rc.g] = rc.w
+			}
+		}
+		tableIDs := func() []uint64 {
+			var ids []uint64
+			for g := range table {
+				ids = append(ids, g)
+			}
+			sort.Slice(ids, func(i, j int) bool { return ids[i] < ids[j] })
+			return ids
+		}
+		lastDistr := "initial"
+		handler := poolincentives.NewPoolIncentivesProposalHandler(*pik)
+		randWeight := func() *big.Int {
+			switch r.Intn(12) {
+			case 0:
+				return big.NewInt(0)
+			case 1, 2:
+				return big.NewInt(int64(1 + r.Intn(3)))
+			case 3:
+				return big.NewInt(int64([]int{4, 9, 7, 17, 13}[r.Intn(5)]))
+			case 4:
+				return new(big.Int).Add(pow2(60+r.Intn(8)), big.NewInt(int64(r.Intn(1000))))
+			case 5:
+				return big.NewInt(int64(1_000_000 + r.Intn(1_000_000)))
+			default:
+				return big.NewInt(int64(1 + r.Intn(1000)))
+			}
+		}
+		// one proposal (mostly valid), run as governance runs it: ValidateBasic at submission, the handler in a
+		// cache context that is written back iff it returned nil
+		distrOp := func(directed string) {
+			candidates := append([]uint64{0}, perpIDs...)
+			replace := r.Intn(4) == 0
+			var recs []drec
+			malformed := ""
+			ids := tableIDs()
+			switch {
+			case directed == "remove-one" && len(ids) > 0:
+				replace = false
+				recs = []drec{{ids[r.Intn(len(ids))], big.NewInt(0)}}
+			case directed == "remove-all" && len(ids) > 0:
+				replace = false
+				for _, g := range ids {
+					recs = append(recs, drec{g, big.NewInt(0)})
+				}
+			case directed == "reweight" && len(ids) > 0:
+				replace = false
+				w := randWeight()
+				if w.Sign() == 0 {
+					w = big.NewInt(5)
+				}
+				recs = []drec{{ids[r.Intn(len(ids))], w}}
+			case directed == "ratios-round-up":
+				// weight ratios whose 18-decimal roundings add up to MORE than one (4/17, 4/17, 9/17)
+				if len(candidates) >= 3 {
+					replace = true
+					pm := r.Perm(len(candidates))[:3]
+					sort.Ints(pm)
+					for i, w := range []int64{4, 4, 9} {
+						recs = append(recs, drec{candidates[pm[i]], big.NewInt(w)})
+					}
+				}
+			}
+			if recs == nil {
+				k := 1 + r.Intn(len(candidates))
+				if k > 5 {
+					k = 5
+				}
+				pm := r.Perm(len(candidates))[:k]
+				sort.Ints(pm)
+				for _, i := range pm {
+					recs = append(recs, drec{candidates[i], randWeight()})
+				}
+				if !replace && len(ids) > 0 && r.Intn(3) == 0 { // aim at an existing record
+					g := ids[r.Intn(len(ids))]
+					found := false
+					for i := range recs {
+						if recs[i].g == g {
+							found = true
+							if r.Intn(2) == 0 {
+								recs[i].w = big.NewInt(0)
+							}
+						}
+					}
+					if !found {
+						recs = append(recs, drec{g, []*big.Int{big.NewInt(0), randWeight()}[r.Intn(2)]})
+						sort.Slice(recs, func(i, j int) bool { return recs[i].g < recs[j].g })
+					}
+				}
+				if r.Intn(9) == 0 {
+					switch r.Intn(6) {
+					case 0:
+						malformed = "duplicate-id"
+						recs = append(recs, recs[r.Intn(len(recs))])
+						sort.SliceStable(recs, func(i, j int) bool { return recs[i].g < recs[j].g })
+					case 1:
+						if len(recs) >= 2 && recs[0].g != recs[len(recs)-1].g {
+							malformed = "unsorted"
+							recs[0], recs[len(recs)-1] = recs[len(recs)-1], recs[0]
+						}
+					case 2:
+						malformed = "unknown-gauge"
+						recs = append(recs, drec{maxGauge + 1 + uint64(r.Intn(3)), randWeight()})
+					case 3:
+						if len(nonPerpIDs) > 0 {
+							malformed = "non-perpetual-gauge"
+							recs = append(recs, drec{nonPerpIDs[r.Intn(len(nonPerpIDs))], randWeight()})
+							sort.SliceStable(recs, func(i, j int) bool { return recs[i].g < recs[j].g })
+						}
+					case 4:
+						malformed = "negative-weight"
+						recs[r.Intn(len(recs))].w = big.NewInt(int64(-1 - r.Intn(5)))
+					default:
+						malformed = "empty"
+						recs = []drec{}
+					}
+				}
+			}
+			// ---- what the proposal means (oracle, from the proposal text alone)
+			valid := len(recs) > 0
+			for i, rc := range recs {
+				if rc.w.Sign() < 0 {
+					valid = false
+				}
+				if i > 0 && recs[i-1].g >= rc.g {
+					valid = false
+				}
+				if rc.g != 0 && !isPerp[rc.g] {
+					valid = false
+				}
+			}
+			opclass := "replace"
+			if !replace {
+				removes, hits, all := 0, 0, len(table) > 0
+				for _, rc := range recs {
+					if _, ok := table[rc.g]; ok {
+						hits++
+						if rc.w.Sign() == 0 {
+							removes++
+						}
+					}
+				}
+				for g := range table {
+					gone := false
+					for _, rc := range recs {
+						if rc.g == g && rc.w.Sign() == 0 {
+							gone = true
+						}
+					}
+					if !gone {
+						all = false
+					}
+				}
+				switch {
+				case removes > 0 && all:
+					opclass = "update-remove-all"
+				case removes > 0:
+					opclass = "update-remove"
+				case hits > 0:
+					opclass = "update-reweight"
+				default:
+					opclass = "update-add"
+				}
+			} else {
+				allZero := true
+				for _, rc := range recs {
+					if rc.w.Sign() != 0 {
+						allZero = false
+					}
+				}
+				if allZero {
+					opclass = "replace-all-zero"
+				}
+			}
+			if !valid {
+				opclass = "invalid"
+				if malformed != "" {
+					opclass = "invalid:" + malformed
+				}
+			}
+			o.Count("distr." + opclass)
+			var prs []poolincentivestypes.DistrRecord
+			for _, rc := range recs {
+				prs = append(prs, poolincentivestypes.DistrRecord{GaugeId: rc.g, Weight: osmomath.NewIntFromBigInt(rc.w)})
+			}
+			var content interface {
+				ValidateBasic() error
+			}
+			opname := "update"
+			if replace {
+				opname = "replace"
+				content = poolincentivestypes.NewReplacePoolIncentivesProposal("t", "d", prs)
+			} else {
+				content = poolincentivestypes.NewUpdatePoolIncentivesProposal("t", "d", prs)
+			}
+			line := strings.TrimSpace(fmt.Sprintf("mint %s %s", opname, drecsStr(recs)))
+			var err error
+			cctx, write := ctx.CacheContext()
+			okc := catch(func() {
+				if err = content.ValidateBasic(); err == nil {
+					if replace {
+						err = handler(cctx, content.(*poolincentivestypes.ReplacePoolIncentivesProposal))
+					} else {
+						err = handler(cctx, content.(*poolincentivestypes.UpdatePoolIncentivesProposal))
+					}
+				}
+			})
+			detail := fmt.Sprintf("table-before=%v %s", tableIDs(), line)
+			switch {
+			case !okc:
+				o.Emit(line, "panic", true)
+				o.Fail("distr:proposal-panicked:"+opclass, detail)
+				return
+			case err != nil:
+				o.Emit(line, "err", true)
+				if valid {
+					o.Fail("distr:validation:valid-proposal-rejected:"+opclass, detail+" err="+err.Error())
+				}
+				return
+			}
+			write()
+			if !valid {
+				o.Fail("distr:validation:accepted:"+opclass, detail)
+			}
+			tw, srecs := stored()
+			o.Emit(line, strings.TrimSpace(fmt.Sprintf("ok total=%s records=[%s]", tw, strings.ReplaceAll(drecsStr(srecs), " ", ","))), true)
+			// the oracle's table
+			if replace {
+				table = map[uint64]*big.Int{}
+			}
+			for _, rc := range recs {
+				if rc.w.Sign() > 0 {
+					table[rc.g] = rc.w
+				} else {
+					delete(table, rc.g)
+				}
+			}
+			lastDistr = opclass
+			// DistrInfo.TotalWeight = sum of the stored record weights
+			sum := new(big.Int)
+			var pos []drec
+			for _, rc := range srecs {
+				sum.Add(sum, rc.w)
+				if rc.w.Sign() != 0 {
+					pos = append(pos, rc)
+				}
+			}
+			if sum.Cmp(tw) != 0 {
+				o.Fail("distr:total-weight!=sum:"+opclass, fmt.Sprintf("%s stored total=%s records=[%s]", detail, tw, drecsStr(srecs)))
+			}
+			// the stored records are what the accepted proposals mean
+			same := len(pos) == len(table)
+			for i, g := range tableIDs() {
+				if !same || pos[i].g != g || pos[i].w.Cmp(table[g]) != 0 {
+					same = false
+				}
+			}
+			if !same {
+				o.Fail("distr:records!=proposals:"+opclass, fmt.Sprintf("%s stored=[%s] want=%v", detail, drecsStr(srecs), table))
+			}
+			if !replace && len(pos) != len(srecs) {
+				o.Fail("distr:update-kept-zero-weight-record", detail)
+			}
+		}
+		for k, kn := 0, r.Intn(4); k < kn && wclass != "no-gauges" || k < kn && r.Intn(2) == 0; k++ {
+			distrOp("")
+		}
+		if x := r.Intn(12); x == 0 {
+			distrOp("ratios-round-up")
+		}
+
 		lastReduction := int64(0)
 		provNow := new(big.Int).Set(prov)
 		nEpochs := 3 + r.Intn(40)
@@ -192,28 +629,129 @@ func runMint(t *testing.T, seed int64, n int, dir string) {
 		if eclass != "small" && r.Intn(3) != 0 { // a few epochs before the (large) start epoch
 			first = start - int64(r.Intn(4))
 		}
+		hooks := func(rec *mintRecHook) epochstypes.MultiEpochHooks { return epochstypes.NewMultiEpochHooks(rec) }
+		allGauges := append(append([]uint64{}, perpIDs...), nonPerpIDs...)
+		gaugeCoins := func() map[uint64]*big.Int {
+			m := map[uint64]*big.Int{}
+			for _, g := range allGauges {
+				gg, err := ik.GetGaugeByID(ctx, g)
+				if err == nil {
+					m[g] = gg.Coins.AmountOf(denom).BigInt()
+				}
+			}
+			return m
+		}
 		for e := first; e < first+int64(nEpochs) && epochsDone < n; e++ {
+			if x := r.Intn(16); x < 4 {
+				distrOp([]string{"", "remove-one", "remove-all", "reweight"}[x])
+			}
 			epochsDone++
-			before := map[string]*big.Int{"mint": bal(ctx, mintAcc), "fee": bal(ctx, feeColl), "pool": bal(ctx, poolInc), "distr": bal(ctx, distrAcc), "vest": bal(ctx, devAcc)}
+			before := map[string]*big.Int{"mint": bal(ctx, mintAcc), "fee": bal(ctx, feeColl), "pool": bal(ctx, poolInc), "distr": bal(ctx, distrAcc), "vest": bal(ctx, devAcc), "inc": bal(ctx, incAcc)}
 			var rb []*big.Int
 			for _, a := range recvAddrs {
 				rb = append(rb, bal(ctx, a))
 			}
+			gBefore := gaugeCoins()
 			supplyB := bk.GetSupplyWithOffset(ctx, denom).Amount.BigInt()
-			cctx, write := ctx.CacheContext()
-			var err error
-			ok := catch(func() { err = mk.AfterEpochEnd(cctx, params.EpochIdentifier, e) })
 			line := fmt.Sprintf("mint epoch %d", e)
-			minter := mk.GetMinter(ctx)
-			if !ok || err != nil {
-				o.Emit(line, fmt.Sprintf("err prov=%s last=%d", provNow, lastReduction), true)
-				o.Count("epoch.err")
-				continue
+
+			// ---- what the property demands of this epoch (oracle; from the history alone, before the call)
+			expectReduce := false
+			lr := lastReduction
+			if e == start {
+				lr = e
 			}
-			write()
-			minter = mk.GetMinter(ctx)
+			if e >= period+lr {
+				expectReduce = true
+			}
+			wantProv := new(big.Int).Set(provNow)
+			overflow := false
+			if expectReduce {
+				if !catch(func() { wantProv = decRaw(provNow).Mul(decRaw(factor)).BigInt() }) {
+					overflow = true
+				}
+				lr = e
+			}
+			minted := new(big.Int).Quo(wantProv, e18)
+			if minted.BitLen() > 255 {
+				overflow = true
+			}
+			share := func(p *big.Int) *big.Int { return ratTrunc(new(big.Rat).SetFrac(new(big.Int).Mul(minted, p), e18)) }
+			wantStaking, wantPool, wantDev := share(props[0]), share(props[1]), share(props[2])
+			wantComm := new(big.Int).Sub(new(big.Int).Sub(new(big.Int).Sub(minted, wantStaking), wantPool), wantDev)
+			// allocation of the pool-incentives module account (its whole balance) over the oracle's table
+			asset := new(big.Int).Add(before["pool"], wantPool)
+			totalW := new(big.Int)
+			ids := tableIDs()
+			for _, g := range ids {
+				totalW.Add(totalW, table[g])
+			}
+			pinned := map[uint64]*big.Int{} // the amount the code's formula gives each record
+			ideal := map[uint64]*big.Int{}  // floor(asset * w / W)
+			pinnedSum, ratioSum := new(big.Int), new(big.Int)
+			wantPoolComm := new(big.Int)
+			if asset.Sign() > 0 {
+				if totalW.Sign() == 0 {
+					wantPoolComm.Set(asset)
+				}
+				for _, g := range ids {
+					q := refWeightRatio(table[g], totalW)
+					ratioSum.Add(ratioSum, q)
+					a := new(big.Int).Quo(new(big.Int).Mul(asset, q), e18)
+					pinned[g] = a
+					pinnedSum.Add(pinnedSum, a)
+					ideal[g] = new(big.Int).Quo(new(big.Int).Mul(asset, table[g]), totalW)
+					if g == 0 {
+						wantPoolComm.Add(wantPoolComm, a)
+					}
+				}
+			}
+
+			rec := &mintRecHook{inner: mk.Hooks()}
+			propagated := !catch(func() { _ = hooks(rec).AfterEpochEnd(ctx, params.EpochIdentifier, e) })
+			failed := propagated || rec.panicked || rec.err != nil
+			minter := mk.GetMinter(ctx)
 			newProv := minter.EpochProvisions.BigInt()
 			d := func(k string, a sdk.AccAddress) *big.Int { return new(big.Int).Sub(bal(ctx, a), before[k]) }
+			if failed {
+				o.Emit(line, fmt.Sprintf("err prov=%s last=%d", provNow, lastReduction), true)
+				o.Count("epoch.err")
+				// a failed hook is "nothing happened": from the start epoch on that is a mint epoch in which nothing was minted
+				class := "ordinary"
+				var zero []string
+				for i, w := range []*big.Int{wantStaking, wantPool, wantDev, wantComm} {
+					if w.Sign() == 0 {
+						zero = append(zero, propName[i])
+					}
+				}
+				switch {
+				case e < start:
+					class = "before-start-epoch"
+				case overflow:
+					class = "provision-beyond-dec-range"
+				case wantDev.Cmp(before["vest"]) > 0:
+					class = "dev-vesting-account-short"
+				case pinnedSum.Cmp(asset) > 0:
+					class = "distr-weight-ratios-round-above-one"
+				case minted.Sign() == 0:
+					class = "nothing-to-mint"
+				case len(zero) > 0:
+					class = "zero-share:" + strings.Join(zero, "+")
+				}
+				how := "error"
+				if rec.panicked {
+					how = fmt.Sprintf("panic: %v", rec.pv)
+				}
+				if len(how) > 300 {
+					how = how[:300]
+				}
+				o.Fail("epoch:hook-failed:"+class, fmt.Sprintf("%s minted-should-be=%s shares=[%s %s %s %s] table=%v asset=%s %s", line, minted, wantStaking, wantPool, wantDev, wantComm, table, asset, how))
+				if newProv.Cmp(provNow) != 0 || d("mint", mintAcc).Sign() != 0 || d("fee", feeColl).Sign() != 0 || d("distr", distrAcc).Sign() != 0 || d("pool", poolInc).Sign() != 0 || d("vest", devAcc).Sign() != 0 {
+					o.Fail("epoch:failed-hook-left-state", line)
+					provNow = newProv
+				}
+				continue
+			}
 			if e < start {
 				o.Emit(line, fmt.Sprintf("skip prov=%s last=%d", newProv, lastReduction), true)
 				o.Count("epoch.skip")
@@ -226,7 +764,24 @@ func runMint(t *testing.T, seed int64, n int, dir string) {
 			staking := d("fee", feeColl)
 			distrDelta := d("distr", distrAcc)
 			vestDelta := d("vest", devAcc)
-			poolLeft := d("pool", poolInc)
+			poolAfter := bal(ctx, poolInc)
+			incDelta := d("inc", incAcc)
+			gAfter := gaugeCoins()
+			var allocToks []string
+			receiptSum := new(big.Int)
+			receipts := map[uint64]*big.Int{}
+			sort.Slice(allGauges, func(i, j int) bool { return allGauges[i] < allGauges[j] })
+			for _, g := range allGauges {
+				if gAfter[g] == nil || gBefore[g] == nil {
+					continue
+				}
+				x := new(big.Int).Sub(gAfter[g], gBefore[g])
+				receipts[g] = x
+				receiptSum.Add(receiptSum, x)
+				if x.Sign() != 0 {
+					allocToks = append(allocToks, fmt.Sprintf("%d:%s", g, x))
+				}
+			}
 			var paid []string
 			paidSum := new(big.Int)
 			commFromDev := new(big.Int)
@@ -241,25 +796,6 @@ func runMint(t *testing.T, seed int64, n int, dir string) {
 				paidSum.Add(paidSum, x)
 			}
 			supplyDelta := new(big.Int).Sub(bk.GetSupplyWithOffset(ctx, denom).Amount.BigInt(), supplyB)
-			// reduction bookkeeping as the property states it (oracle, independent of the model)
-			expectReduce := false
-			lr := lastReduction
-			if e == start {
-				lr = e
-			}
-			if e >= period+lr {
-				expectReduce = true
-			}
-			wantProv := new(big.Int).Set(provNow)
-			if expectReduce {
-				wantProv = decRaw(provNow).Mul(decRaw(factor)).BigInt()
-				lr = e
-			}
-			minted := new(big.Int).Quo(wantProv, e18)
-			// exact integer shares
-			share := func(p *big.Int) *big.Int { return ratTrunc(new(big.Rat).SetFrac(new(big.Int).Mul(minted, p), e18)) }
-			wantStaking, wantPool, wantDev := share(props[0]), share(props[1]), share(props[2])
-			wantComm := new(big.Int).Sub(new(big.Int).Sub(new(big.Int).Sub(minted, wantStaking), wantPool), wantDev)
 			// per-receiver payouts out of the vesting account
 			for i := range recvAddrs {
 				w := recv[i].Weight.BigInt()
@@ -278,14 +814,40 @@ func runMint(t *testing.T, seed int64, n int, dir string) {
 			}
 			lastReduction = lr
 			provNow = newProv
-			obs := fmt.Sprintf("ok minted=%s staking=%s pool=%s dev=%s comm=%s paid=[%s] supply=%s mintacct=%s vest=%s prov=%s last=%d",
-				minted, staking, wantPool, wantDev, wantComm, strings.Join(paid, ","), supplyDelta, bal(ctx, mintAcc), bal(ctx, devAcc), newProv, lastReduction)
+			obs := fmt.Sprintf("ok minted=%s staking=%s pool=%s dev=%s comm=%s paid=[%s] supply=%s mintacct=%s vest=%s prov=%s last=%d alloc=[%s] commtotal=%s pacct=%s",
+				minted, staking, wantPool, wantDev, wantComm, strings.Join(paid, ","), supplyDelta, bal(ctx, mintAcc), bal(ctx, devAcc), newProv, lastReduction,
+				strings.Join(allocToks, ","), distrDelta, poolAfter)
 			o.Emit(line, obs, true)
 			o.Count("epoch.ok")
 			if expectReduce {
 				o.Count("epoch.reduction")
 			}
+			for i, w := range []*big.Int{wantStaking, wantPool, wantDev, wantComm} {
+				if w.Sign() == 0 && minted.Sign() > 0 {
+					if props[i].Sign() == 0 {
+						o.Count("epoch.zero-share." + propName[i] + ":zero-proportion")
+					} else {
+						o.Count("epoch.zero-share." + propName[i] + ":truncated")
+					}
+				}
+			}
+			if minted.Sign() == 0 {
+				o.Count("epoch.minted=0")
+			} else if minted.Cmp(big.NewInt(1)) == 0 {
+				o.Count("epoch.minted=1")
+			}
+			if asset.Sign() > 0 {
+				switch {
+				case len(ids) == 0:
+					o.Count("epoch.alloc.empty-table")
+				case len(ids) == 1:
+					o.Count("epoch.alloc.records=1:after-" + lastDistr)
+				default:
+					o.Count("epoch.alloc.records>=2:after-" + lastDistr)
+				}
+			}
 			// --- property oracle ---
+			detail := fmt.Sprintf("%s asset=%s table=%v", line, asset, table)
 			if newProv.Cmp(wantProv) != 0 {
 				o.Fail("schedule:provision", fmt.Sprintf("%s got %s want %s", line, newProv, wantProv))
 			}
@@ -295,13 +857,50 @@ func runMint(t *testing.T, seed int64, n int, dir string) {
 			if staking.Cmp(wantStaking) != 0 {
 				o.Fail("allocation:staking-share", line)
 			}
-			if poolLeft.Sign() != 0 {
-				o.Fail("allocation:pool-incentives-left-in-module", line)
+			// every record receives what the code's formula promises ...
+			wrongReceipt := false
+			for _, g := range allGauges {
+				want := pinned[g]
+				if want == nil || g == 0 {
+					want = new(big.Int)
+				}
+				if receipts[g] != nil && receipts[g].Cmp(want) != 0 {
+					wrongReceipt = true
+					o.Fail("distr:gauge-receipt:after-"+lastDistr, fmt.Sprintf("%s gauge %d received %s, its weight share is %s", detail, g, receipts[g], want))
+				}
 			}
-			// community pool receives remainder + (unallocated) pool incentives + dev portions addressed to it
-			wantDistr := new(big.Int).Add(new(big.Int).Add(wantComm, wantPool), commFromDev)
+			if incDelta.Cmp(receiptSum) != 0 {
+				o.Fail("distr:incentives-module-balance!=gauge-receipts", fmt.Sprintf("%s module %s gauges %s", detail, incDelta, receiptSum))
+			}
+			// ... which is the weight share floor(asset*w/W) up to the 18-decimal rounding of the ratio
+			if !wrongReceipt {
+				for _, g := range ids {
+					if pinned[g].Cmp(ideal[g]) != 0 {
+						o.Fail("distr:share!=floor-of-weight-share:weight-ratio-rounded-to-18-decimals", fmt.Sprintf("%s gauge %d gets %s, floor(asset*w/W)=%s", detail, g, pinned[g], ideal[g]))
+						break
+					}
+				}
+			}
+			// community pool receives remainder + dev portions addressed to it + what pool incentives forwards to it
+			wantDistr := new(big.Int).Add(new(big.Int).Add(wantComm, wantPoolComm), commFromDev)
 			if distrDelta.Cmp(wantDistr) != 0 {
-				o.Fail("allocation:community-pool", fmt.Sprintf("%s got %s want %s", line, distrDelta, wantDistr))
+				o.Fail("allocation:community-pool", fmt.Sprintf("%s got %s want %s", detail, distrDelta, wantDistr))
+			}
+			// gauge receipts + community pool funding + what stays behind = the asset
+			poolCommObserved := new(big.Int).Sub(new(big.Int).Sub(distrDelta, wantComm), commFromDev)
+			if new(big.Int).Add(new(big.Int).Add(receiptSum, poolCommObserved), poolAfter).Cmp(asset) != 0 {
+				o.Fail("distr:conservation", fmt.Sprintf("%s gauges %s community %s left %s", detail, receiptSum, poolCommObserved, poolAfter))
+			}
+			// everything is forwarded: the pool-incentives module account is empty afterwards
+			if poolAfter.Sign() != 0 {
+				// explained by rounding: each record loses < 1 by truncation and <= asset * 0.5e-18 by the rounded ratio
+				bound := new(big.Int).Quo(new(big.Int).Mul(asset, big.NewInt(int64(len(ids)))), new(big.Int).Mul(big.NewInt(2), e18))
+				bound.Add(bound, big.NewInt(int64(2*len(ids))))
+				if poolAfter.Cmp(bound) <= 0 {
+					o.Fail("distr:left-in-module:truncation-dust", fmt.Sprintf("%s left %s", detail, poolAfter))
+				} else {
+					o.Fail("distr:left-in-module:beyond-truncation-dust:after-"+lastDistr, fmt.Sprintf("%s left %s (rounding explains at most %s)", detail, poolAfter, bound))
+				}
 			}
 			if new(big.Int).Neg(vestDelta).Cmp(totalPaid) != 0 {
 				o.Fail("allocation:vesting-payout", line)
@@ -323,3 +922,5 @@ func runMint(t *testing.T, seed int64, n int, dir string) {
 	}
 	o.Close(nil)
 }
+
+var _ = time.Second
